@@ -44,7 +44,7 @@ def run(ctx):
     ctx.cov["tlc_generated_cases"] = len(cases)
     cases = B.sample(ctx, cases, ctx.pick(1000, 10**9))
     ctx.cov["tlc_generated_cases_replayed"] = len(cases)
-    events = B.run_driver(ctx, "fees", ctx.pick(1200, 40000), cases)
+    events = B.run_driver(ctx, "fees", ctx.pick(1200, 250000), cases)
     rejects = B.validate(ctx, events)
     handle(ctx, events, rejects)
     fe = [e for e in events if e["ev"] in ("fees", "signed")]
